@@ -1,2 +1,3 @@
 pub mod common;
 pub mod c01;
+pub mod c02;
